@@ -38,6 +38,7 @@ class Contract:
     opaque: list = field(default_factory=list)        # macros kept as uninterpreted functions while verifying THIS function (hide definitions the proof does not need)
     interface: bool = False            # [A] interface contract on an abstract collaborator: used at call sites, never verified against a body
     assumptions: list = field(default_factory=list)  # [A] statements this contract rests on
+    callee_variants: dict = field(default_factory=dict)  # callee qualname -> which of its contract variants this caller is checked against
 
     @property
     def ident(self):
